@@ -653,7 +653,16 @@ class Interp(object):
 
     def st_AugAssign(self, s, fr):
         cur = self.eval(_load(s.target), fr)
-        v = self.binop(type(s.op).__name__, cur, self.eval(s.value, fr))
+        rhs = self.eval(s.value, fr)
+        v = None
+        if isinstance(cur, SObj) and cur.cls is not None:
+            nm = {'Add': 'iadd', 'Sub': 'isub', 'Mult': 'imul', 'BitAnd': 'iand', 'BitOr': 'ior',
+                  'BitXor': 'ixor', 'LShift': 'ilshift', 'RShift': 'irshift'}.get(type(s.op).__name__)
+            if nm is not None and find_method(cur.cls, '__%s__' % nm) is not None:
+                v = self.obj_special(cur, '__%s__' % nm, [rhs])
+                self.assign(s.target, v, fr)
+                return
+        v = self.binop(type(s.op).__name__, cur, rhs)
         self.assign(s.target, v, fr)
 
     def st_If(self, s, fr):
